@@ -68,7 +68,10 @@ RULE = ("struct shapes of 1-6 fields over bool/int8..int64/int/uint8..uint64/uin
         "in a child and a grandchild: written in full, in part, as a scalar, or left out); 6% + 17 fixed env= cases; JSON "
         "documents of exactly 4095, 4096, 4097, 5000, 65536 and 1048576 bytes (bytes / reader / one-byte reader / YAML / "
         "httpx.Parse body) and round trips with bodies of 4 KiB..1 MiB in every run (long strings compared by SHA-1); "
-        "a fixed directed set "
+        "dependent-optional members with a null own key / null dependency; 4 'defaults' histories per run (slice members "
+        "filled from default=[...]: load, overwrite the result's slices in place, load again through JSON / YAML / conf; of "
+        "two list elements only the first is overwritten); 6 'concurrent' cases per run (request A held inside its handler "
+        "while request B with other path values is routed and answered on the same route); a fixed directed set "
         "(D1/D9 reproductions, tag-option clauses) is part of every run; non-trivial = the document sets at least one "
         "field and is not the directed prefix only; distinct = distinct canonical case JSON")
 TRUSTED = ["encoding/json tokenisation with UseNumber, yaml.v2 scalar resolution, reflect (Set*, Overflow*, StructOf)",
@@ -116,6 +119,8 @@ ASSUMPTIONS = [
     "not generated; pointer members with env= (panicked before /repo 0ecc4e6, D21) are generated",
     "observation: an untagged member of a request struct is claimed by every part of httpx.Parse (path first), so "
     "Parse fails on it for any method; the JSON-body comparison uses fully tagged shapes",
+    "default= on slice members is outside the model (expected values of the 'defaults' stream are computed by the "
+    "generator: [a,b,c] / [3,1,2]); default= on map members is not supported by the code (convertType: unsupported kind)",
     "c05_roundtrip (httpc.buildRequest -> httpx.Parse): correspondence only (12% of the cases: request structs with "
     "path/form/header/json parts sent through an httptest server); well-formedness: path/form/header strings non-empty "
     "(an optional form string may be empty), no '/' and no '.'/'..' in path values, header values trimmed, header names "
@@ -533,6 +538,8 @@ def gen_obj(rng, t, mode):
             want_self = (dep[1] in present) != dep[0]
             if want_self and f["key"] not in present:
                 pairs.append((f["key"], gen_value(rng, f["t"], f["o"], mode)))
+            elif want_self and rng.random() < 0.15:
+                pairs = [kv if kv[0] != f["key"] else (kv[0], NULL) for kv in pairs]   # own key present but null
             elif not want_self and f["key"] in present:
                 pairs = [kv for kv in pairs if kv[0] != f["key"]]
     if rng.random() < 0.1:
@@ -787,6 +794,18 @@ def directed(rng):
     two(mkopts(dep=(True, "b"), rng=r15), O([]), "dep")
     two(mkopts(dep=(False, "b"), options=["1", "2"]), O([("v", N(7)), ("b", N(1))]), "dep")
     two(mkopts(dep=(False, "b"), default="4", rng=r15), O([]), "dep")
+    # the member's OWN key present but null: present for the both-or-neither / either-or rule, and a null value
+    # is accepted only when the RESOLVED flag is optional
+    two(mkopts(dep=(False, "b")), O([("b", N(1)), ("v", NULL)]), "dep-null")        # required (b present): must fail
+    two(mkopts(dep=(False, "b")), O([("v", NULL)]), "dep-null")                      # v present, b absent: mismatch
+    two(mkopts(dep=(True, "b")), O([("v", NULL)]), "dep-null")                       # !b, b absent: required: must fail
+    two(mkopts(dep=(True, "b")), O([("b", N(1)), ("v", NULL)]), "dep-null")          # both present: mismatch
+    two(mkopts(dep=(False, "b"), default="4"), O([("b", N(1)), ("v", NULL)]), "dep-null")
+    two(mkopts(dep=(False, "b")), O([("b", NULL), ("v", N(3))]), "dep-null")         # the dependency itself null: present
+    two(mkopts(dep=(True, "b")), O([("b", NULL)]), "dep-null")                       # !b with b null: b present: v optional
+    for t2 in (P("str"), {"k": "ptr", "e": P("int")}, {"k": "slice", "e": P("int")}):
+        two(mkopts(dep=(False, "b")), O([("b", N(1)), ("v", NULL)]), "dep-null", t=t2)
+        two(mkopts(dep=(True, "b")), O([("v", NULL)]), "dep-null", t=t2)
     # slices given as a string holding a JSON array (fillSliceFromString)
     one({"k": "slice", "e": P("int")}, None, O([("v", S("[1,2,3]"))]), "fromstring")
     one({"k": "slice", "e": P("int")}, None, O([("v", S("[1,null,3]"))]), "fromstring")
@@ -1168,9 +1187,48 @@ def hist_case(rng):
     return c
 
 
+DEF_TAGS, DEF_NUMS, DEF_ITEM = ["a", "b", "c"], [3, 1, 2], ["x", "y"]
+
+
+def defaults_case(rng):
+    """slice members filled from default=[...]: load, overwrite the result's slices in place, load again with the
+    members left out (JSON / YAML / conf): the second result has the declared defaults; of two list elements only the
+    first is overwritten, the second keeps its own default slice"""
+    item = struct([field("T", "tags", {"k": "slice", "e": P("str")}, mkopts(default="[%s]" % ",".join(DEF_ITEM)))])
+    shape = struct([field("N", "name", P("str")),
+                    field("T", "tags", {"k": "slice", "e": P("str")}, mkopts(default="[%s]" % ",".join(DEF_TAGS))),
+                    field("U", "nums", {"k": "slice", "e": P("int")}, mkopts(default="[%s]" % ",".join(map(str, DEF_NUMS)))),
+                    field("I", "items", {"k": "slice", "e": item}, mkopts(optional=True))])
+    doc = O([("name", S("n")), ("items", A([O([]), O([])]))])
+    c = mkcase(rng, struct([]), O([]), ["defaults"], with_yaml=False, with_conf=False)
+    ops = ["json-bytes", "yaml-bytes", "conf-json", "conf-yaml", "json-reader", "json-map"]
+    first, second = rng.choice(ops), rng.choice(ops)
+    text = lambda op: to_yaml(doc) if "yaml" in op else to_json(doc)
+    c["hist"] = [[{"op": first, "shape": shape, "text": text(first), "mutate": True, "defaults": True},
+                  {"op": second, "shape": shape, "text": text(second), "mutate": True, "defaults": True}]]
+    return c
+
+
+def defaults_expected(after):
+    sl = lambda xs: ["sl", [["s", x] for x in xs]]
+    m = lambda xs: ["MUTATED"] * len(xs)
+    tags = sl(m(DEF_TAGS) if after else DEF_TAGS)
+    nums = ["sl", [["i", "-1" if after else str(x)] for x in DEF_NUMS]]
+    items = ["sl", [["st", [sl(m(DEF_ITEM) if after else DEF_ITEM)]], ["st", [sl(DEF_ITEM)]]]]
+    return {"r": "ok", "v": ["st", [["s", "n"], tags, nums, items]]}
+
+
 def hist_pairs(case, obs):
     """(reference, observed) for every step of every history"""
     out = []
+    for h, hr in zip(case.get("hist") or [], obs.get("hist") or []):
+        for st, r in zip(h, hr):
+            if st.get("defaults"):
+                out.append((st["op"] + ":loaded", defaults_expected(False), {k: v for k, v in r.items() if k != "after"}))
+                out.append((st["op"] + ":after-overwriting-in-place", defaults_expected(True),
+                            {"r": "ok", "v": r["after"]} if "after" in r else r))
+    if out:
+        return out
     for h, hr in zip(case.get("hist") or [], obs.get("hist") or []):
         for st, r in zip(h, hr):
             if st.get("ignore"):
@@ -1435,6 +1493,32 @@ def big_rt_case(rng, size):
     return c
 
 
+# ----------------------------------------------------------------------------- two overlapping requests to one route
+def conc_case(rng):
+    """request A is held inside its handler while request B (other path / form / json values) is routed and answered:
+    each httpx.Parse must yield its own request's values (path variables are per request)"""
+    a = rt_case(rng)
+    while not any(f["tag"].startswith("path") for f in a["rt_shape"]["f"]):
+        a = rt_case(rng)
+    fs = a["rt_shape"]["f"]
+    vb = []
+    for f, va in zip(fs, a["value"][1]):
+        part, k = f["tag"].split(":")[0], f["t"]["k"]
+        if part == "path" and k in RT_SCALARS:
+            v = rt_scalar(rng, k, RT_PATH_STR)
+            for _ in range(5):
+                if v != va:
+                    break
+                v = rt_scalar(rng, k, RT_PATH_STR)
+            vb.append(v)
+        else:
+            vb.append(va)
+    c = mkcase(rng, struct([]), O([]), ["concurrent"], with_yaml=False, with_conf=False)
+    c["conc"] = {"a": a["value"], "b": ["st", vb]}
+    c.update({"rt_shape": a["rt_shape"], "method": a["method"], "pattern": a["pattern"]})
+    return c
+
+
 # ----------------------------------------------------------------------------- direct Marshal (lib/mapping/marshaler.go)
 def marshal_case(rng):
     """a request-like struct value through mapping.Marshal; 30% carry one member that validation must reject"""
@@ -1617,6 +1701,10 @@ def generate(rng, tier, n):
         cases.extend(direct_fixed(rng))
         cases.extend(env_fixed(rng))
         cases.extend(inherit_fixed(rng))
+        for _ in range(4):                          # defaults are fresh per result (4 route pairs per run)
+            cases.append(defaults_case(rng))
+        for _ in range(6):                          # overlapping requests to one route
+            cases.append(conc_case(rng))
         for size in BIG_SIZES:                      # the size dimension: every size in every run (1 MB once)
             cases.append(big_case(rng, size))
         cases.append(big_rt_case(rng, rng.choice([4096, 4097, 65536])))
@@ -1682,7 +1770,8 @@ def drive(cases, tier):
     co, log2 = run_driver("./lib/conf", c_in, name="C05c_" + tier, timeout=DRIVER_TIMEOUT)
     if co is None:
         return None, log2
-    r_in = [{"rt": True, "shape": c["rt_shape"], "value": c["value"], "method": c["method"], "pattern": c["pattern"]}
+    r_in = [{"conc": c["conc"], "shape": c["rt_shape"], "method": c["method"], "pattern": c["pattern"]} if c.get("conc") else
+            {"rt": True, "shape": c["rt_shape"], "value": c["value"], "method": c["method"], "pattern": c["pattern"]}
             if c.get("rt") else ({"direct": c["direct"], "shape": c["direct_shape"]} if c.get("direct") else
                                  ({"direct": {"kind": "jsonbody", "method": c["jsonbody"],
                                               "body": "" if c["jsonbody"] in ("GET", "HEAD") else c["json"]}, "shape": c["shape"]}
@@ -1694,12 +1783,14 @@ def drive(cases, tier):
     for a, b, r in zip(mo, co, ro):
         if "error" in a or "error" in b or "error" in r:
             return None, "driver error: %r %r %r" % (a, b, r)
+        if r and "error" in (r.get("conc") or {}):
+            return None, "driver error (conc): %r" % (r["conc"],)
         if "e" in a and "j" not in a:
             a["j"] = {"r": "ok", "v": ["st", []]}          # env case: the ordinary run is not made
         if "error" in (a.get("m") or {}):
             return None, "driver error (marshal): %r" % (a["m"],)
         obs.append({"j": a["j"], "y": a.get("y"), "c": b.get("c"), "cy": b.get("cy"), "camel": b["camel"],
-                    "rt": r if (r and "d" not in r) else None,
+                    "rt": r if (r and "d" not in r and "conc" not in r) else None, "conc": (r or {}).get("conc"),
                     "s": a.get("s"), "f": a.get("f"), "m": a.get("m"), "rd": a.get("rd"), "d": (r or {}).get("d"), "hist": b.get("hist"), "e": a.get("e")})
     # known findings: which single unenforced clause (if any) is the sole reason spec_ok fails -- decided in Coq
     idx = [i for i, c in enumerate(cases) if c["label"][0] == "known"]
@@ -1929,6 +2020,11 @@ def encode(case, obs):
     prs += [(ref, got) for _, ref, got in hist_pairs(case, obs)]
     if case.get("jsonbody") and obs.get("d") is not None:
         prs.append((obs["j"], obs["d"]))
+    if case.get("conc") and obs.get("conc"):
+        cc = obs["conc"]
+        prs.append(({"r": "ok", "v": case["conc"]["a"]}, {"r": "ok", "v": cc["orig_a"]}))
+        prs.append(({"r": "ok", "v": cc["orig_a"]}, cc["a"]))
+        prs.append(({"r": "ok", "v": cc["orig_b"]}, cc["b"]))
     rd = clist([cpair(c_obs(a), c_obs(b)) for a, b in prs])
     di = None
     if case.get("direct") and obs.get("d") is not None:
@@ -1956,7 +2052,8 @@ def encode(case, obs):
 
 # ----------------------------------------------------------------------------- evidence helpers
 def nontrivial(case, obs):
-    if case.get("rt") or case.get("float") or case.get("marshal") or case.get("direct") or case.get("env"):
+    if case.get("rt") or case.get("float") or case.get("marshal") or case.get("direct") or case.get("env") or case.get("conc") \
+            or case["label"][0] == "defaults":
         return True
     return "directed" not in case["label"] and "outside" not in case["label"] and len(case["doc"][1]) > 0
 
@@ -1969,6 +2066,10 @@ def bucket(case, obs):
         return ["stream:marshal", "marshal:" + obs["m"]["r"]]
     if case.get("env"):
         return ["stream:env", "env:" + obs["e"]["r"]]
+    if case.get("conc"):
+        return ["stream:concurrent", "conc-a:" + obs["conc"]["a"]["r"], "conc-b:" + obs["conc"]["b"]["r"]]
+    if case["label"][0] == "defaults":
+        return ["stream:defaults"] + ["defaults-route:" + st["op"] for st in case["hist"][0]]
     if case["label"][0] == "big":
         return ["stream:big", "big:" + case["label"][1], "big-json:" + obs["j"]["r"]]
     if case.get("direct"):
@@ -2036,6 +2137,16 @@ def explain(case, obs):
                 "bit pattern (Spec.json_yaml_float_agree): %s" % (case["float"], json.dumps(obs["f"])))
     if case.get("marshal"):
         return "mapping.Marshal panicked on %s" % json.dumps(case["marshal"]["value"])
+    if case.get("conc") and obs.get("conc"):
+        cc = obs["conc"]
+        return ("two overlapping requests to %s %s: A (held in its handler while B was routed) sent %s and parsed %s; B sent %s and "
+                "parsed %s" % (case["method"], case["pattern"], json.dumps(cc["orig_a"])[:200], json.dumps(cc["a"])[:200],
+                               json.dumps(cc["orig_b"])[:200], json.dumps(cc["b"])[:200]))
+    if case["label"][0] == "defaults":
+        for what, ref, got in hist_pairs(case, obs):
+            if ref.get("r") != got.get("r") or ref.get("v") != got.get("v"):
+                return ("defaults are not fresh per result: history %s, step '%s' gives %s, expected %s"
+                        % ([st["op"] for st in case["hist"][0]], what, json.dumps(got)[:300], json.dumps(ref)[:300]))
     if case.get("env"):
         return ("env= member %s with %s=%r: the outcome %s is not the environment value exactly / not one of options= / outside range="
                 % (case["env_shape"]["f"][0]["tag"], case["env"]["name"], case["env"]["value"], json.dumps(obs["e"])[:300]))
